@@ -427,3 +427,62 @@ func checkRawEq(c *Ctx, p *Program, rule string) {
 		c.ok(rule, "no == on unreduced fp25519 / fp448 elements", fmt.Sprintf("%d comparisons of Elt values inspected", n), "")
 	}
 }
+
+// SELECTMASK: the mask of the portable conditional move / swap is a function of bit 0 of the selector only.
+// The assembly routines move on any non-zero selector; callers pass 0, 1 and also the sign mask -1. The
+// portable code reduces the selector to its low bit before negating it (`-uint64(n & 1)`): negating the
+// selector itself turns -1 into +1, a mask with one bit set.
+func checkSelectMask(c *Ctx, p *Program, rule string) {
+	n := 0
+	for _, pkg := range []string{"math/fp25519", "math/fp448"} {
+		for _, name := range []string{"cmovGeneric", "cswapGeneric"} {
+			f := p.Func(pkg, "", name)
+			what := pkg + "." + name + ": every bit of the selection mask depends on bit 0 of the selector only"
+			if f == nil {
+				c.undecided(rule, what, "anchor function does not resolve", "")
+				continue
+			}
+			var sel *ssa.Parameter
+			for _, q := range f.Params {
+				if bitWidth(q.Type()) > 0 {
+					sel = q
+				}
+			}
+			if sel == nil {
+				c.undecided(rule, what, "no integer selector parameter", p.fnPos(f))
+				continue
+			}
+			e := &bitEngine{acc: sel, memo: map[ssa.Value]*bitDeps{}, busy: map[ssa.Value]bool{}}
+			found, bad := 0, ""
+			for _, b := range f.Blocks {
+				for _, in := range b.Instrs {
+					u, ok := in.(*ssa.UnOp)
+					if !ok || u.Op != token.SUB {
+						continue
+					}
+					d := e.deps(u)
+					if e.all(d, 64) == 0 {
+						continue // not derived from the selector
+					}
+					found++
+					for i := 0; i < bitWidth(u.Type()); i++ {
+						if d[i]&^1 != 0 {
+							bad = fmt.Sprintf("bit %d of the mask computed at %s depends on selector bits other than bit 0 (%s)", i, p.pos(u.Pos()), descVal(u))
+							break
+						}
+					}
+				}
+			}
+			n++
+			switch {
+			case found == 0:
+				c.undecided(rule, what, "no negated value derived from the selector found", p.fnPos(f))
+			case bad != "":
+				c.bad(rule, what, bad+": a selector of -1, which the assembly treats as true, gives a mask with a single bit set", p.fnPos(f))
+			default:
+				c.ok(rule, what, fmt.Sprintf("%d mask(s)", found), p.fnPos(f))
+			}
+		}
+	}
+	_ = n
+}
